@@ -106,8 +106,9 @@ def uriPart (r : Record) : Str × List Str × Option Str := (r.uri, r.uSyn, r.pa
 rename one record — leaving its URI part alone -/
 theorem remapStep_cases (c : Conv) (ho : List Str) (s s' : RState) (old new : Str)
     (h : remapStep c ho s (old, new) = .ok s') :
-    s' = s ∨ (∃ i, s' = { s with popped := s.popped ++ [i] }) ∨
-    (∃ i record record', s.working[i]? = some record ∧ uriPart record' = uriPart record ∧
+    s' = s ∨ (∃ i, i ∉ s.popped ∧ i < s.working.length ∧ s' = { s with popped := s.popped ++ [i] }) ∨
+    (∃ i record record', i ∉ s.popped ∧ s.working[i]? = some record ∧ uriPart record' = uriPart record ∧
+      (∀ p, p ∈ record'.allP ↔ p = new ∨ (p ∈ record.allP ∧ p ≠ new ∧ (p ≠ old ∨ old ∉ ho))) ∧
       s' = { working := s.working.set i record', popped := s.popped ++ [i] }) := by
   unfold remapStep at h
   simp only at h
@@ -126,12 +127,42 @@ theorem remapStep_cases (c : Conv) (ho : List Str) (s s' : RState) (old new : St
         | none => simp only [h4] at h; cases h
         | some record =>
           simp only [h4] at h
+          have hnp : i ∉ s.popped := by simpa using h3
+          have hlt : i < s.working.length := by
+            rcases Nat.lt_or_ge i s.working.length with h' | h'
+            · exact h'
+            · rw [List.getElem?_eq_none_iff.mpr h'] at h4; cases h4
           by_cases hcl : clashWith s.working record new = true
-          · rw [if_pos hcl] at h; cases h; exact Or.inr (Or.inl ⟨i, rfl⟩)
+          · rw [if_pos hcl] at h; cases h; exact Or.inr (Or.inl ⟨i, hnp, hlt, rfl⟩)
           · rw [if_neg hcl] at h; cases h
-            exact Or.inr (Or.inr ⟨i, record,
+            refine Or.inr (Or.inr ⟨i, record,
               { record with pSyn := setUpdate record.pSyn record.pfx (if ho.contains old then [new, old] else [new]),
-                            pfx := new }, h4, rfl, rfl⟩)
+                            pfx := new }, hnp, h4, rfl, ?_, rfl⟩)
+            intro p
+            simp only [Record.allP, List.mem_cons, mem_setUpdate]
+            by_cases hho : ho.contains old = true
+            · have hho' : old ∈ ho := by simpa using hho
+              simp only [hho, if_true, List.mem_cons, List.not_mem_nil, or_false, not_or]
+              constructor
+              · rintro (h1 | ⟨h1, h2, h3⟩)
+                · exact Or.inl h1
+                · exact Or.inr ⟨by rcases h1 with h1 | h1; exact Or.inr h1; exact Or.inl h1, h2,
+                    Or.inl h3⟩
+              · rintro (h1 | ⟨h1, h2, h3⟩)
+                · exact Or.inl h1
+                · refine Or.inr ⟨by rcases h1 with h1 | h1; exact Or.inr h1; exact Or.inl h1, h2, ?_⟩
+                  rcases h3 with h3 | h3
+                  · exact h3
+                  · exact absurd hho' h3
+            · have hho' : old ∉ ho := by simpa using hho
+              simp only [hho, Bool.false_eq_true, if_false, List.mem_cons, List.not_mem_nil, or_false]
+              constructor
+              · rintro (h1 | ⟨h1, h2⟩)
+                · exact Or.inl h1
+                · exact Or.inr ⟨by rcases h1 with h1 | h1; exact Or.inr h1; exact Or.inl h1, h2, Or.inr hho'⟩
+              · rintro (h1 | ⟨h1, h2, _⟩)
+                · exact Or.inl h1
+                · exact Or.inr ⟨by rcases h1 with h1 | h1; exact Or.inr h1; exact Or.inl h1, h2⟩
 
 /-- **C11.** Every step keeps the number of working records and, position by position, each record's
 canonical URI prefix, URI-prefix synonyms and pattern. -/
@@ -139,7 +170,7 @@ theorem C11_step_uri_part (c : Conv) (ho : List Str) (s s' : RState) (pair : Str
     (h : remapStep c ho s pair = .ok s') :
     s'.working.length = s.working.length ∧ s'.working.map uriPart = s.working.map uriPart := by
   obtain ⟨old, new⟩ := pair
-  rcases remapStep_cases c ho s s' old new h with e | ⟨i, e⟩ | ⟨i, record, record', hrec, hu, e⟩
+  rcases remapStep_cases c ho s s' old new h with e | ⟨i, _, _, e⟩ | ⟨i, record, record', _, hrec, hu, _, e⟩
   · subst e; exact ⟨rfl, rfl⟩
   · subst e; exact ⟨rfl, rfl⟩
   · subst e
@@ -171,6 +202,168 @@ theorem C11_run_uri_part (c : Conv) (ho : List Str) (ordering : List (Str × Str
       have a := C11_step_uri_part c ho s s1 p h1
       have b := ih s1 h
       exact ⟨b.1.trans a.1, b.2.trans a.2⟩
+
+/-! ### every record comes out exactly once -/
+
+/-- bookkeeping invariant of the main loop -/
+def PoppedOK (s : RState) : Prop := s.popped.Nodup ∧ ∀ i ∈ s.popped, i < s.working.length
+
+theorem poppedOK_step (c : Conv) (ho : List Str) (s s' : RState) (pair : Str × Str) (hinv : PoppedOK s)
+    (h : remapStep c ho s pair = .ok s') : PoppedOK s' := by
+  obtain ⟨old, new⟩ := pair
+  rcases remapStep_cases c ho s s' old new h with e | ⟨i, hnp, hlt, e⟩ | ⟨i, record, record', hnp, hrec, _, _, e⟩
+  · subst e; exact hinv
+  · subst e
+    refine ⟨?_, ?_⟩
+    · exact List.nodup_append.mpr ⟨hinv.1, by simp, by intro a ha b hb; simp at hb; subst hb; exact fun e => hnp (e ▸ ha)⟩
+    · intro j hj
+      rcases List.mem_append.mp hj with hj | hj
+      · exact hinv.2 j hj
+      · simp at hj; subst hj; exact hlt
+  · subst e
+    have hlt : i < s.working.length := by
+      rcases Nat.lt_or_ge i s.working.length with h' | h'
+      · exact h'
+      · rw [List.getElem?_eq_none_iff.mpr h'] at hrec; cases hrec
+    refine ⟨?_, ?_⟩
+    · exact List.nodup_append.mpr ⟨hinv.1, by simp, by intro a ha b hb; simp at hb; subst hb; exact fun e => hnp (e ▸ ha)⟩
+    · intro j hj
+      simp only [List.length_set]
+      rcases List.mem_append.mp hj with hj | hj
+      · exact hinv.2 j hj
+      · simp at hj; subst hj; exact hlt
+
+theorem poppedOK_run (c : Conv) (ho : List Str) (ordering : List (Str × Str)) (s s' : RState) (hinv : PoppedOK s)
+    (h : ordering.foldlM (remapStep c ho) s = .ok s') : PoppedOK s' := by
+  induction ordering generalizing s with
+  | nil => simp [List.foldlM, pure, Except.pure] at h; subst h; exact hinv
+  | cons p ps ih =>
+    rw [List.foldlM_cons] at h
+    cases h1 : remapStep c ho s p with
+    | error e => simp [h1, bind, Except.bind] at h
+    | ok s1 =>
+      simp [h1, bind, Except.bind] at h
+      exact ih s1 (poppedOK_step c ho s s1 p hinv h1) h
+
+theorem filterMap_range_getElem? {α : Type} (l : List α) : (List.range l.length).filterMap (l[·]?) = l := by
+  induction l with
+  | nil => rfl
+  | cons a t ih =>
+    rw [List.length_cons, List.range_succ_eq_map, List.filterMap_cons]
+    simp only [List.getElem?_cons_zero, List.filterMap_map]
+    congr 1
+
+/-- the records handed to the final constructor are the working records, each exactly once -/
+theorem result_perm (s : RState) (hinv : PoppedOK s) : s.result.Perm s.working := by
+  unfold RState.result
+  rw [← List.filterMap_append]
+  have hidx : (((List.range s.working.length).filter fun i => !s.popped.contains i) ++ s.popped).Perm
+      (List.range s.working.length) := by
+    have h1 : s.popped.Perm ((List.range s.working.length).filter fun i => s.popped.contains i) := by
+      rw [List.perm_ext_iff_of_nodup hinv.1 (List.Pairwise.sublist List.filter_sublist List.nodup_range)]
+      intro a
+      simp only [List.mem_filter, List.mem_range, List.contains_eq_mem, decide_eq_true_eq]
+      exact ⟨fun ha => ⟨hinv.2 a ha, ha⟩, fun ha => ha.2⟩
+    have h2 := List.filter_append_perm (fun i => s.popped.contains i) (List.range s.working.length)
+    refine (List.Perm.trans ?_ h2)
+    refine (List.perm_append_comm).trans (List.Perm.append h1 ?_)
+    apply List.Perm.of_eq
+    apply List.filter_congr
+    intro x _
+    simp
+  exact (hidx.filterMap _).trans (List.Perm.of_eq (filterMap_range_getElem? s.working))
+
+/-- **C11 (count and URI part).** A successful `remap_curie_prefixes` returns a converter with the same
+number of records, and the records correspond one to one to the input's records with exactly
+the same canonical URI prefix, URI-prefix synonyms and pattern. -/
+theorem C11_uri_part (c c' : Conv) (rm : List (Str × Str)) (hok : remapCuriePrefixes c rm = .ok c') :
+    c'.records.length = c.records.length ∧ (c'.records.map uriPart).Perm (c.records.map uriPart) := by
+  unfold remapCuriePrefixes at hok
+  cases ho : orderCurieRemapping c rm with
+  | error e => simp [ho] at hok
+  | ok ordering =>
+    simp only [ho] at hok
+    cases hf : ordering.foldlM (remapStep c ((rm.filter fun kv => (std c kv.1).isSome).map (·.2)))
+        { working := c.records, popped := [] } with
+    | error e => simp [hf] at hok
+    | ok s =>
+      simp only [hf] at hok
+      have hinv := poppedOK_run c _ ordering _ s ⟨List.nodup_nil, by simp⟩ hf
+      have hparts := C11_run_uri_part c _ ordering _ s hf
+      have hperm := result_perm s hinv
+      have hrec : c'.records.Perm s.result := by
+        rw [(init?_records hok).1]; exact sortRecords_perm _
+      have hp2 : (c'.records.map uriPart).Perm (c.records.map uriPart) := by
+        have := ((hrec.trans hperm).map uriPart)
+        rw [hparts.2] at this
+        exact this
+      exact ⟨by simpa using hp2.length_eq, hp2⟩
+
+/-! ### known prefixes stay known -/
+
+/-- one step forgets at most `old`, and only when `old` is handed over -/
+theorem C11_step_known (c : Conv) (ho : List Str) (s s' : RState) (old new : Str)
+    (h : remapStep c ho s (old, new) = .ok s') (p : Str) (hp : ∃ r ∈ s.working, p ∈ r.allP)
+    (hkeep : p ≠ old ∨ old ∉ ho) : ∃ r ∈ s'.working, p ∈ r.allP := by
+  obtain ⟨r, hr, hpr⟩ := hp
+  rcases remapStep_cases c ho s s' old new h with e | ⟨i, _, _, e⟩ | ⟨i, record, record', _, hrec, _, hall, e⟩
+  · subst e; exact ⟨r, hr, hpr⟩
+  · subst e; exact ⟨r, hr, hpr⟩
+  · subst e
+    obtain ⟨k, hk, rfl⟩ := List.mem_iff_getElem.mp hr
+    by_cases hik : k = i
+    · subst hik
+      have hrec' : s.working[k] = record := by
+        rw [List.getElem?_eq_getElem hk] at hrec; exact Option.some.inj hrec
+      refine ⟨record', ?_, ?_⟩
+      · rw [List.mem_iff_getElem]; exact ⟨k, by simpa using hk, by simp⟩
+      · rw [hall p]
+        by_cases hpn : p = new
+        · exact Or.inl hpn
+        · exact Or.inr ⟨hrec' ▸ hpr, hpn, hkeep⟩
+    · refine ⟨s.working[k], ?_, hpr⟩
+      rw [List.mem_iff_getElem]
+      exact ⟨k, by simpa using hk, by rw [List.getElem_set]; simp [Ne.symm hik]⟩
+
+/-- **C11 (partial: remappings that hand nothing over).** If no key of the remapping is the value
+of a pair with a known key — no chains — every CURIE prefix known before is still known
+afterwards.  (For chains the clause is decided on the implementation's records by
+`Spec.C11.ok` on every run; the repaired defect F4 lived exactly there.) -/
+theorem C11_known_partial (c c' : Conv) (rm : List (Str × Str)) (hok : remapCuriePrefixes c rm = .ok c')
+    (hno : ∀ kv ∈ rm, kv.1 ∉ (rm.filter fun kv => (std c kv.1).isSome).map (·.2))
+    (p : Str) (hp : ∃ r ∈ c.records, p ∈ r.allP) : ∃ r ∈ c'.records, p ∈ r.allP := by
+  unfold remapCuriePrefixes at hok
+  cases ho : orderCurieRemapping c rm with
+  | error e => simp [ho] at hok
+  | ok ordering =>
+    simp only [ho] at hok
+    cases hf : ordering.foldlM (remapStep c ((rm.filter fun kv => (std c kv.1).isSome).map (·.2)))
+        { working := c.records, popped := [] } with
+    | error e => simp [hf] at hok
+    | ok s =>
+      simp only [hf] at hok
+      have hordmem : ∀ kv ∈ ordering, kv ∈ rm := fun kv hkv => (C11_ordering_perm c rm ordering ho).mem_iff.mp hkv
+      -- run invariant
+      have key : ∀ (l : List (Str × Str)) (s0 s1 : RState), (∀ kv ∈ l, kv ∈ rm) →
+          l.foldlM (remapStep c ((rm.filter fun kv => (std c kv.1).isSome).map (·.2))) s0 = .ok s1 →
+          (∃ r ∈ s0.working, p ∈ r.allP) → ∃ r ∈ s1.working, p ∈ r.allP := by
+        intro l
+        induction l with
+        | nil => intro s0 s1 _ h hp0; simp [List.foldlM, pure, Except.pure] at h; subst h; exact hp0
+        | cons kv kvs ih =>
+          intro s0 s1 hl h hp0
+          rw [List.foldlM_cons] at h
+          cases h1 : remapStep c ((rm.filter fun kv => (std c kv.1).isSome).map (·.2)) s0 kv with
+          | error e => simp [h1, bind, Except.bind] at h
+          | ok sm =>
+            simp [h1, bind, Except.bind] at h
+            exact ih sm s1 (fun x hx => hl x (by simp [hx])) h
+              (C11_step_known c _ s0 sm kv.1 kv.2 h1 p hp0 (Or.inr (hno kv (hl kv (by simp)))))
+      obtain ⟨r, hr, hpr⟩ := key ordering _ s hordmem hf hp
+      have hinv := poppedOK_run c _ ordering _ s ⟨List.nodup_nil, by simp⟩ hf
+      have hrec : c'.records.Perm s.working := by
+        rw [(init?_records hok).1]; exact (sortRecords_perm _).trans (result_perm s hinv)
+      exact ⟨r, hrec.mem_iff.mpr hr, hpr⟩
 
 /-- Non-vacuity and the repaired defect F4: a chain through a synonym keeps every prefix known, a
 hand-over whose key is unknown drops nothing, a swap is a cycle, two keys of one record are
